@@ -5,7 +5,7 @@
    computed with its reference implementation (any other point gives the empty byte string). *)
 From Coq Require Import List NArith ZArith Bool Arith.
 From Coq Require Import Strings.Byte Strings.String.
-Require Import CU.model.Prim CU.model.Pin CU.spec.PinSpec.
+Require Import CU.model.Prim CU.model.Pin CU.model.Des CU.spec.PinSpec.
 Require Import CU.extract.Text.
 Import ListNotations.
 
@@ -31,7 +31,11 @@ Fixpoint tbl_cipher (tbl : list (bytes * bytes * bytes)) (k d : bytes) : bytes :
   | [] => []
   | (k', d', o) :: r => if bytes_eqb k k' && bytes_eqb d d' then o else tbl_cipher r k d
   end.
-Definition p_tbl (t : text) : option (bytes -> bytes -> bytes) := option_map tbl_cipher (p_list p_triple t).
+(* the cipher: a table of (key, data, result) answers supplied by the harness, or the Triple-DES model itself *)
+Definition p_tbl (t : text) : option (bytes -> bytes -> bytes) :=
+  if text_eqb t (T "TDES") then Some tdes_ecb_enc
+  else if text_eqb t (T "TDESD") then Some tdes_ecb_dec
+  else option_map tbl_cipher (p_list p_triple t).
 
 Definition pr_pair (x : str * str) : text := pr_str_e (fst x) ++ T "," ++ pr_str_e (snd x).
 Definition ok_str (s : str) : text := T "OK " ++ pr_str s.
@@ -75,6 +79,9 @@ Definition run_pin (op : text) (args : list text) : option text :=
         optp (p_bytes enc) (fun enc => pr_result pr_str (iso4_from_enc a D key enc))))))
     | _ => Some bad_input end
   (* ---- Visa PVV ---- *)
+  else if text_eqb op (T "cipher") then         (* a cipher model alone: TDES | TDESD | ..., key, data *)
+    match args with [dir; k; d] => Some (optp (p_tbl dir) (fun F => optp (p_bytes k) (fun k => optp (p_bytes d) (fun d =>
+        ok_bytes (F k d))))) | _ => Some bad_input end
   else if text_eqb op (T "tsp") then
     match args with [pan; kidx; pin] => Some (optp (p_str pan) (fun pan => optp (p_N kidx) (fun kidx => optp (p_str pin) (fun pin =>
         ok_str (get_tsp pan kidx pin))))) | _ => Some bad_input end
